@@ -43,6 +43,10 @@ func namesElided(g *gram.Grammar) bool {
 			if (e.Op == "ref" || e.Op == "lit") && (e.Typ == "WS" || e.Typ == "Comment") {
 				found = true
 			}
+			// an untyped literal whose text only a token of an elided type can have names that type just as well
+			if e.Op == "lit" && e.Text != "" && (strings.HasPrefix(e.Text, "#") || strings.Trim(e.Text, " \t\r\n") == "") {
+				found = true
+			}
 		})
 	}
 	return found
